@@ -358,6 +358,15 @@ func w13NewInstance() (*w13Instance, error) {
 	if slock.state != STATE_LEADER {
 		return nil, fmt.Errorf("instance is not a leader (state %d)", slock.state)
 	}
+	// db 0 exists before any client byte arrives: a new db starts its first time-out / expiry sweep per
+	// shard at once, and if the very request that created the db panics while holding a shard mutex,
+	// those sweep goroutines stay blocked for ever and keep the whole instance in memory
+	db := slock.GetOrNewDB(0)
+	time.Sleep(200 * time.Microsecond)
+	for i := uint16(0); i < db.managerMaxGlocks; i++ {
+		db.managerGlocks[i].LowPriorityLock()
+		db.managerGlocks[i].LowPriorityUnlock()
+	}
 	return &w13Instance{slock: slock, server: server, dir: dir, port: 40000, created: time.Now()}, nil
 }
 
